@@ -42,6 +42,11 @@ from .alg import (
 )
 
 UNIT = Tup([])
+SAFETY_LOG = []  # entries of every interpreter run in this process (PANIC engine reads them)
+
+
+def slog(I, kind, e, ok, detail=""):
+    SAFETY_LOG.append({"kind": kind, "spx": (e or {}).get("spx"), "sp": FX.short((e or {}).get("sp")), "fn": I.fn_stack[-1] if I.fn_stack else "", "ok": bool(ok), "detail": detail, "F": id(I.F)})
 
 
 class ReturnSignal(Exception):
@@ -142,7 +147,9 @@ class Interp:
         self.map_ctx = []
         self.recurrences = []
         self.assumed = []
+        self.havoc_count = 0
         self.scatter = None
+        self.watch_calls = {"generators::BulletproofGensShare::<'a, G>::G", "generators::BulletproofGensShare::<'a, G>::H", "generators::BulletproofGens::<G>::share"}
         self.max_facts = []
         self.all_subst = {}
         self.loop_log = []
@@ -168,6 +175,8 @@ class Interp:
         self.depth += 1
         self.fn_stack.append(path)
         self.calls_seen.append(path)
+        if path in self.watch_calls:
+            self.trace.add("callmark", {"path": path, "args": [self.deref(a) if not isinstance(a, Ref) else None for a in args], "where": FX.short((node or {}).get("sp")), "fn": self.fn_stack[-2] if len(self.fn_stack) > 1 else ""})
         try:
             try:
                 v = self.ev(fn["body"], env)
@@ -310,6 +319,9 @@ class Interp:
 
             def g(base=base, idx=idx):
                 if self.scatter is not None and isinstance(idx, IntV):
+                    bb = self.deref(base.get())
+                    if isinstance(bb, Vec):
+                        self.log_index(bb, idx, e)
                     return Sc(ssym("OLD:" + base.desc))
                 return self.index_val(self.deref(base.get()), idx, e)
 
@@ -354,19 +366,51 @@ class Interp:
             b = b.vec
         if isinstance(idx, Opaque) and idx.what == "rangefull":
             return b
-        if isinstance(idx, Struct) and idx.path == "Range":
+        if isinstance(b, Opaque) and b.what == "digest" and isinstance(idx, Struct) and idx.path == "Range":
+            lo = idx.fields.get("start")
+            hi = idx.fields.get("end")
+            return Bytes([("digest-slice", b.info["hash"], str(lo.e) if lo is not None else "0", str(hi.e) if hi is not None else "end")])
+        if isinstance(idx, Struct) and idx.path == "Range" and isinstance(b, Vec):
             lo = idx.fields.get("start") or IntV(0)
             hi = idx.fields.get("end")
             if hi is None:
                 hi = IntV(b.length())
+            ok = le(0, lo.e, self.bounds) and le(lo.e, hi.e, self.bounds) and le(hi.e, b.length(), self.bounds)
+            slog(self, "slice", e, ok, f"[{sp.expand(lo.e)}..{sp.expand(hi.e)}) of length {b.length()}")
             return b.slice(lo.e, hi.e, self.bounds)
         if isinstance(b, Vec) and isinstance(idx, IntV):
+            self.log_index(b, idx, e)
             return b.index(idx.e, self.bounds)
         raise Unanalysable(f"index {idx!r} into {b!r}", FX.short((e or {}).get("sp")))
 
+    def log_index(self, b, idx, e):
+        ln = b.length()
+        if ln.has(isym("inf")):
+            slog(self, "index", e, False, f"index {sp.expand(idx.e)} into a vector defined by recurrence")
+            return
+        ok = le(0, idx.e, self.bounds) and lt(idx.e, ln, self.bounds)
+        slog(self, "index", e, ok, f"index {sp.expand(idx.e)} into length {ln}")
+
     def index_write(self, base_ref, b, idx, v, e=None):
+        if isinstance(b, Vec) and isinstance(idx, Struct) and idx.path == "Range":
+            lo = (idx.fields.get("start") or IntV(0)).e
+            hi = idx.fields["end"].e if idx.fields.get("end") is not None else b.length()
+            ok = le(0, lo, self.bounds) and le(lo, hi, self.bounds) and le(hi, b.length(), self.bounds)
+            slog(self, "slice", e, ok, f"[{sp.expand(lo)}..{sp.expand(hi)}) of length {b.length()}")
+            pre, rest = b.split_at(lo, self.bounds)
+            mid, post = rest.split_at(sp.expand(hi - lo), self.bounds)
+            if isinstance(v, Vec):
+                newmid = v.segs
+            else:
+                newmid = [Seg(sp.expand(hi - lo), lambda j, v=v: Opaque("part-of", value=v, j=j))]
+            base_ref.set(Vec(pre.segs + newmid + post.segs))
+            return
+        if isinstance(b, Bytes) and isinstance(idx, Opaque) and idx.what == "rangefull":
+            base_ref.set(v)
+            return
         if not (isinstance(b, Vec) and isinstance(idx, IntV)):
             raise Unanalysable(f"indexed write {idx!r} into {b!r}")
+        self.log_index(b, idx, e)
         if self.scatter is not None:
             self.scatter.append({"target": base_ref.desc, "root": base_ref.root_id, "idx": idx.e, "value": v, "old": ssym("OLD:" + base_ref.desc), "where": FX.short((e or {}).get("sp")), "loops": [(lc["isym"], lc["n"]) for lc in self.loop_ctx if lc.get("isym") is not None]})
             return
@@ -605,18 +649,23 @@ class Interp:
         if isinstance(l, IntV) and isinstance(r, IntV):
             a, b = l.e, r.e
             if op == "+":
+                slog(self, "add", e, True, "length arithmetic (bounded by allocation sizes)")
                 return IntV(a + b)
             if op == "-":
+                slog(self, "sub", e, le(b, a, self.bounds), f"({sp.expand(a)}) - ({sp.expand(b)})")
                 return IntV(a - b)
             if op == "*":
+                slog(self, "mul", e, True, "length arithmetic (bounded by allocation sizes)")
                 return IntV(sp.expand(a * b))
             if op == "/":
+                slog(self, "div", e, sp.sympify(b).is_number and b != 0, f"{sp.expand(a)} / {sp.expand(b)}")
                 if b == 2:
                     h = self.half(a)
                     if h is not None:
                         return IntV(h)
                 raise Unanalysable(f"integer division {a}/{b}")
             if op == "<<":
+                slog(self, "shl", e, lt(b, 64, self.bounds), f"({sp.expand(a)}) << ({sp.expand(b)})")
                 if a == 1:
                     return IntV(self.pow2(b))
                 raise Unanalysable(f"shift {a}<<{b}")
@@ -711,6 +760,7 @@ class Interp:
             return UNIT
         c = self.as_cond(self.ev(e["c"], env))
         if isinstance(c, bool):
+            slog(self, "if-const", e, True, str(c))
             if c:
                 return self.ev_raw(e["t"], env)
             return self.ev_raw(e["f"], env) if e.get("f") else UNIT
@@ -725,6 +775,7 @@ class Interp:
             except Unanalysable as u:
                 if "reachable panic" in u.msg:
                     rv = Opaque("panic", where=u.where)
+                    slog(self, "panic-guard", e, False, f"panics when {c}")
                 else:
                     raise
             sub = self.trace
@@ -1088,6 +1139,24 @@ class Interp:
                     read.add(t["res"]["id"])
         return pushed, read
 
+    def vec_identities(self, env):
+        out = {}
+
+        def visit(v, pth, lid, d=0):
+            if d > 3:
+                return
+            if isinstance(v, Vec):
+                out[pth] = (v, lid)
+            elif isinstance(v, Struct):
+                for k_, x in v.fields.items():
+                    visit(x, f"{pth}.{k_}", lid, d + 1)
+
+        for lid, v in env.items():
+            if isinstance(v, Ref):
+                continue
+            visit(v, str(lid), lid)
+        return out
+
     def loop_segment(self, pat, seg, off, body, env, e, itv):
         where = FX.short(e.get("sp"))
         if seg.n == 1:
@@ -1134,6 +1203,8 @@ class Interp:
                 env[lid] = Vec([Seg(isym("inf"), lambda jj, f=f: Sc(f(jj)))])
         self.loop_ctx.append(lc)
         old_trace = self.sub_trace()
+        vec_before = self.vec_identities(env)
+        havoc_before = self.havoc_count
         try:
             elem = seg.f(j)
             if itv.mut_place is not None:
@@ -1148,6 +1219,13 @@ class Interp:
             self.bounds = old_bounds
             body_trace = self.trace
             self.trace = old_trace
+        # vector state carried across iterations must only change through index-aligned writes / pushes
+        for pth, (obj, lid) in vec_before.items():
+            if lid in rec or self.havoc_count != havoc_before:
+                continue
+            now = self.vec_identities(env).get(pth)
+            if now is not None and now[0] is not obj and not val_eq(now[0], obj):
+                raise Unanalysable(f"loop-carried vector state `{pth}` is modified by a write that is not aligned with the loop index (its value in iteration i depends on earlier iterations)", where)
         # classify carried scalars
         subst = {}
         finals = {}
